@@ -471,6 +471,9 @@ pub fn run_check<P: Prop>(prop: &P, tier: Tier, seed: u64) -> i32 {
                                 }
                                 Verdict::Known(id) => {
                                     if !failed_once.get() {
+                                        if std::env::var("VERIF_SHOW_KNOWN").is_ok() {
+                                            eprintln!("known {id}: {} :: {}", prop.describe(&case), serde_json::to_string(&case).unwrap());
+                                        }
                                         *obs.known_attributed.entry(id).or_insert(0) += 1;
                                     }
                                     Ok(())
